@@ -13,7 +13,7 @@ def check(run, tier):
         "state including the states left by rejected operations; implementation: histories mixing add/remove/aspirate/"
         "dispense/transfer/distribute with deliberately infeasible volumes (exact limit, one unit beyond) at units 1, "
         "2^-40 and 2^10 microlitres plus inf/huge values, judged by Trace_Twin (C02.bounds, C02.okbounds, C02.outcome, "
-        "C02.offender, C02.negative); distinct = distinct programs; non-trivial = some step changed a volume or emitted a record"
+        "C02.offender) and, for decimal limits and volumes that land exactly on a limit, the stored floats compared literally (C02.rawbounds); distinct = distinct programs; non-trivial = some step changed a volume or emitted a record"
     )
     q = tier == "quick"
     run.mc("MC_Twin", "MC_Twin_labware")
@@ -59,6 +59,35 @@ def check(run, tier):
         run.extra["model_behaviours_replayed"] += len(mprogs)
         progs += mprogs
     run_programs(run, progs)
+    # decimal limits and volumes landing exactly on a limit: the stored floats are compared literally (C02.rawbounds)
+    from ._util import run_calls
+
+    rr = rng("C02-raw")
+    raw = []
+    for i in range(600 if q else 30000):
+        mn, mx = rr.randint(1, 200), rr.randint(300, 2500)
+        n = rr.randint(1, 6)
+        init = [rr.randint(mn, mx) for _ in range(n)]
+        cur = list(init)
+        steps = []
+        for _ in range(rr.randint(1, 2 * n)):
+            c = rr.randrange(n)
+            kind = rr.random()
+            if kind < 0.45:      # down to exactly the minimum
+                op, amount = "remove", cur[c] - mn
+            elif kind < 0.9:     # up to exactly the maximum
+                op, amount = "add", mx - cur[c]
+            elif kind < 0.95:    # somewhere inside
+                op, amount = "remove", rr.randint(0, cur[c] - mn)
+            else:
+                op, amount = "add", rr.randint(0, mx - cur[c])
+            steps.append({"op": op, "col": c, "amount": amount})
+            # whether the step is accepted is float noise; continue from a fresh random level either way is not possible,
+            # so the decimal book-keeping assumes acceptance (a rejected step just leaves the well where it was)
+            cur[c] = cur[c] - amount if op == "remove" else cur[c] + amount
+        raw.append({"x": "rawlimit", "kind": "plate" if i % 3 else "trough", "via": "worklist" if i % 4 == 0 else "direct",
+                    "min": mn, "max": mx, "init": init, "steps": steps})
+    run_calls(run, raw, nontrivial=lambda rec: rec["nsteps"] > 1)
     run.assumptions += ["limits and volumes lie on an exact grid so that comparisons at the boundary are decided without float noise"]
 
 
